@@ -141,3 +141,55 @@ Definition split2 (o : binop) (cdx : option nat) (x : list value) (cdy : option 
                | None => IndexErr
                end
   end.
+
+(* ---- flat n-ary splitters [f0, f1, ..., fk] (Outer) and (f0, f1, ..., fk) (Inner).
+   splitter2rpn folds them to the left: f0 f1 op f2 op ... fk op.  State.splits then keeps one
+   accumulated operand (index tuples, shape) on the stack and combines it with the next field:
+   "*" = itertools.product, newshape = shape_L + shape_R;  "." = shape test, zip, newshape = shape_R.
+   The keys of each operand travel with it (keys = new_keys_L + new_keys_R), so they stay in field order.  The nested tuples
+   ((i0, i1), i2) that product/zip build are kept flattened here (iter_splits flattens them). *)
+Definition field := (option nat * list value)%type.           (* (container_ndim entry, value) *)
+
+Definition field_shape (f : field) : list nat := input_shape (snd f) (ndim_shape (fst f)).
+Definition field_ind (f : field) : list nat := single_ind (fst f) (snd f).
+
+Definition step_outer (acc : list (list nat)) (r : list nat) : list (list nat) :=
+  flat_map (fun t => map (fun j => t ++ [j]) r) acc.
+Definition step_inner (acc : list (list nat)) (r : list nat) : list (list nat) :=
+  map (fun p => fst p ++ [snd p]) (combine acc r).
+
+(* the "." shape tests along the fold: shape_L (the previous operand's shape) against shape_R *)
+Fixpoint chain_eq (s : list nat) (ss : list (list nat)) : bool :=
+  match ss with
+  | [] => true
+  | s' :: r => list_eqb Nat.eqb s s' && chain_eq s' r
+  end.
+
+Definition nary_ind (o : binop) (f0 : field) (fs : list field) : option (list (list nat)) :=
+  let init := map (fun i => [i]) (field_ind f0) in
+  match o with
+  | Outer => Some (fold_left step_outer (map field_ind fs) init)
+  | Inner => if chain_eq (field_shape f0) (map field_shape fs)
+             then Some (fold_left step_inner (map field_ind fs) init) else None
+  end.
+
+(* map_splits on one states_ind dict: every key looked up in its own flattened value *)
+Fixpoint get_tuple (fs : list field) (t : list nat) : option (list value) :=
+  match fs, t with
+  | [], [] => Some []
+  | f :: fs', i :: t' =>
+      match get_elem (fst f) (snd f) i, get_tuple fs' t' with
+      | Some a, Some r => Some (a :: r)
+      | _, _ => None
+      end
+  | _, _ => None
+  end.
+
+Definition splitN (o : binop) (f0 : field) (fs : list field) : outcome (list value) :=
+  match nary_ind o f0 fs with
+  | None => ShapeError
+  | Some ts => match sequence (map (get_tuple (f0 :: fs)) ts) with
+               | Some l => Jobs l
+               | None => IndexErr
+               end
+  end.
